@@ -51,12 +51,16 @@ func c15Frame(kind int, name string) []byte {
 		return c15MSM(name, 1074, 30)
 	case 6: // MSM7 cut inside the header
 		return c15MSM(name, 1077, 12)
-	default: // MSM4 cut inside the signal data
+	case 7: // MSM4 cut inside the signal data
 		return c15MSM(name, 1074, 27)
+	case 8: // complete MSM7 of another constellation (Galileo), same signal id
+		return c15MSM(name, 1097, 36)
+	default: // complete MSM4 of a third constellation (GLONASS)
+		return c15MSM(name, 1084, 30)
 	}
 }
 
-const c15Kinds = 8
+const c15Kinds = 10
 
 func c15MSM(name string, msgType uint64, n int) []byte {
 	p := verifBytes(name, n)
